@@ -61,12 +61,13 @@ type Server struct {
 	ReplyLatMaxUs int
 
 	// faults
-	ErrAt   map[int]bool // command numbers answered with an error reply
-	DropAt  map[int]bool // command numbers at which the connection breaks (command not executed)
-	CrashAt int          // command number at which the broker process "dies": not executed, epoch advances
-	OnCrash func()       // called (once) when CrashAt is reached
-	Fired   map[string]int
-	crashed bool
+	ErrMatch string       // "<command> <key prefix>" (lower case command): such commands are answered with an error reply half of the time
+	ErrAt    map[int]bool // command numbers answered with an error reply
+	DropAt   map[int]bool // command numbers at which the connection breaks (command not executed)
+	CrashAt  int          // command number at which the broker process "dies": not executed, epoch advances
+	OnCrash  func()       // called (once) when CrashAt is reached
+	Fired    map[string]int
+	crashed  bool
 }
 
 // NewServer creates an empty store.
@@ -521,6 +522,12 @@ func (c *conn) Write(p []byte) (int, error) {
 			c.broken = true
 			c.s.Fired["redis.conn_drop"]++
 			return 0, errBroken
+		}
+		if c.s.ErrMatch != "" && len(args) >= 2 && strings.HasPrefix(strings.ToLower(string(args[0]))+" "+string(args[1]), c.s.ErrMatch) && c.s.rng.IntN(2) == 0 {
+			// targeted storage fault: commands of one kind on one family of keys fail half of the time
+			c.s.Fired["redis.cmd_error_targeted"]++
+			c.rbuf = append(c.rbuf, "-ERR injected failure\r\n"...)
+			continue
 		}
 		if c.s.ErrAt[c.s.Cmds] {
 			c.s.Fired["redis.cmd_error"]++
